@@ -106,6 +106,9 @@ package channelmonitor
 //@   acquires {C20} nothing
 
 //@ func (*channelmonitor.Monitor).onShutdown {C20}
+//@   acquires {C20} channelmonitor.Monitor.lk, channelmonitor.monitoredChannel.shutdownLk
 //@   loop 0 invariant [all-channels] true
 //@ func (*channelmonitor.monitoredChannel).isRestarting {C14,C20}
+//@   acquires {C20} channelmonitor.monitoredChannel.restartLk
 //@ func (*channelmonitor.monitoredChannel).start {C20}
+//@   acquires {C20} channelmonitor.monitoredChannel.shutdownLk
